@@ -12,7 +12,8 @@ package sonic
 // never armed.
 //@ pred tInv(t *Timer) =
 //@   t.ioc != nil && t.it != nil && internal.tiInv(t.it) &&
-//@   (t.state == stateScheduled) == tArmed(t) && t.state <= stateClosed
+//@   (t.state == stateScheduled) == tArmed(t) && t.state <= stateClosed &&
+//@   !internal.armed(&t.it.slot, internal.PollerWriteEvent)
 
 // Rely on user callbacks: they leave the timer consistent (every public operation does).
 //@ func fnparam:(*Timer).*.cb
